@@ -58,9 +58,19 @@ func (c *Decoder) decodeCallStatement() (*ast.CallStatement, error) {
 		return nil, errors.WithStack(err)
 	}
 
-	return &ast.CallStatement{
+	stmt := &ast.CallStatement{
 		Subroutine: name,
-	}, nil
+	}
+	// Arguments follow the name as expression frames
+	for isExpressionFrame(c.peekFrame()) {
+		arg, err := c.decodeExpression(c.nextFrame())
+		if err != nil {
+			return nil, errors.WithStack(err)
+		}
+		stmt.Arguments = append(stmt.Arguments, arg)
+	}
+
+	return stmt, nil
 }
 
 func (c *Decoder) decodeCaseStatement() (*ast.CaseStatement, error) {
